@@ -55,14 +55,14 @@ func c15NewCtx(c *fw.C, caseID string) *c15Ctx {
 // for hashes or blocks (the downloader uses every registered peer as a block source).
 func (x *c15Ctx) honestServe(s *c15Sess) {
 	reqs := make(chan c15In, 1024)
-	s.onMsg = func(in c15In) {
+	s.setOnMsg(func(in c15In) {
 		if in.code == 5 || in.code == 8 {
 			select {
 			case reqs <- in:
 			default:
 			}
 		}
-	}
+	})
 	go func() {
 		e := x.e
 		for {
@@ -633,14 +633,14 @@ func c15RunSync(c *fw.C, caseID string, parts []string) {
 	s := c15Open(c, x.pm, "syncsrv")
 	defer s.close()
 	reqs := make(chan c15In, 4096)
-	s.onMsg = func(in c15In) {
+	s.setOnMsg(func(in c15In) {
 		if in.code == 3 || in.code == 5 || in.code == 8 {
 			select {
 			case reqs <- in:
 			default:
 			}
 		}
-	}
+	})
 	if st := s.handshake(e, top, e.hashes[top]); st != "ok" {
 		c.Inconclusive("sync: handshake: " + st)
 		return
